@@ -543,6 +543,14 @@ def mutate(rng, t, depth, collide=True):
 
 def change_value(rng, v, change_type, depth, collide=True):
     if change_type:
+        # a clash between values that compare equal in Python (1 == True == 1.0): only the type differs
+        if rng.random() < 0.35:
+            if v is True or v is False:
+                return int(v) if rng.random() < 0.7 else float(v)
+            if isinstance(v, int) and v in (0, 1):
+                return bool(v) if rng.random() < 0.7 else float(v)
+            if isinstance(v, float) and v in (0.0, 1.0):
+                return bool(v) if rng.random() < 0.5 else int(v)
         for _ in range(8):
             n = gen_node(rng, 1, collide)
             if type(n) is not type(v):
@@ -901,3 +909,56 @@ def report_of(run):
         elif e[0] in ("su", "ou"):
             out.append((e[0], e[1], vtok(e[2])))
     return sorted(out)
+
+
+# ---------------------------------------------------------------------------
+# the same objects compared twice with an in-place change in between
+# ---------------------------------------------------------------------------
+def check_repeat(case):
+    """compare(a, b); change a or b in place (append / reverse / replace an item); compare again:
+    the second result must be what fresh copies of the changed operands give"""
+    import random
+
+    rng = random.Random(case["seed"])
+    a = build(case["a"])
+    b = build(case["b"])
+    kw = dict(composite_key=py_patarg(case.get("ck", [])), compare_only=py_patarg(case.get("only", [])),
+              exclude_xpaths=py_patarg(case.get("excl", [])), transform=py_tr(case.get("tr", [])))
+    reset_flags()
+    try:
+        apply_setters(case.get("setters", []) + [["place", True]])
+        fl = get_flags()
+        fn = (lambda x, y: x.direct_compare(y, **kw)) if case["mode"] == "d" else (lambda x, y: x.compare(y, **kw))
+        r1 = core.call(fn, a, b)
+        for _ in range(case.get("n", 1)):
+            side = rng.choice([a, b])
+            lists = [side] if isinstance(side, list) else []
+            lists += [l for l in walk_lists(side)]
+            if lists:
+                l = rng.choice(lists)
+                k = rng.random()
+                if k < 0.4:
+                    l.append(copy.deepcopy(l[0]) if l and rng.random() < 0.5 else gen_leaf(rng, False))
+                elif k < 0.7 and len(l) > 1:
+                    l.reverse()
+                elif l:
+                    list.__setitem__(l, rng.randrange(len(l)), gen_leaf(rng, False))
+            elif isinstance(side, dict):
+                dict.__setitem__(side, "zz", 1)
+        r2 = core.call(fn, a, b)
+        fa = build(json.loads(json.dumps(a)))
+        fb = build(json.loads(json.dumps(b)))
+        r3 = core.call(fn, fa, fb)
+    finally:
+        reset_flags()
+
+    def tok(r):
+        run = Run()
+        run.status, run.fl = r[0], fl
+        run.err = r[1] if r[0] == "err" else None
+        run.res = r[1] if r[0] == "ok" else None
+        return canon(run)
+
+    if tok(r2) != tok(r3):
+        return {"second_compare": tok(r2)[:300], "fresh_copies": tok(r3)[:300], "first_compare": tok(r1)[:200]}
+    return None
